@@ -371,6 +371,50 @@ def r4_no_foreign_writes(ctx, P):
     ctx.floor(R, "chunk header construction sites (positive control for the write recogniser)", hdr_ok, 1)
 
 
+def r3b_zeroed_extensions(ctx, P):
+    """bytemuck / zerocopy extension traits (only present in the stable_all / all fact bases)."""
+    R = "C02.R3"
+    n = 0
+    for b in P.fn_bodies():
+        nm = b.item["name"]
+        if "bytemuck_or_zerocopy" not in (b.item.get("file") or "") and "features::" not in b.path:
+            continue
+        if nm == "init_zeroed":
+            for k, (site, t, ptr, val, cnt) in enumerate(write_bytes_sites(b)):
+                n += 1
+                v, pe, ce = b.prov_operand(val, site), b.prov_operand(ptr, site), b.prov_operand(cnt, site)
+                ok = v == ("int", 0, "u8") and mentions_param(pe, 1) and \
+                    (ce == ("int", 1, "usize") or expr_mentions(ce, lambda x: x[0] == "call" and x[1].split("::")[-1] == "len" and mentions_param(x, 1)))
+                ctx.inst(R, b.path, ok, f"init_zeroed: write_bytes({show(pe)}, {show(v)}, {show(ce)}) zeroes exactly its own elements" if ok else
+                         f"init_zeroed zeroes {show(ce)} elements at {show(pe)}: not exactly the box's own elements", where=b.where(site), site=f"init_zeroed#{k}")
+        if nm == "generic_extend_zeroed":
+            wbs = write_bytes_sites(b)
+            if not wbs:
+                continue
+            n += 1
+            site, t, ptr, val, cnt = wbs[0]
+            v, pe, ce = b.prov_operand(val, site), b.prov_operand(ptr, site), b.prov_operand(cnt, site)
+            rev = "MutBumpVecRev" in b.path
+            ok = v == ("int", 0, "u8") and strip_casts(ce)[0] == "param" and strip_casts(ce)[1] == 2
+            a = strip_casts(pe)
+            if rev:
+                # end.sub(len + additional)
+                ok = ok and a[0] == "call" and a[1].split("::")[-1] == "sub" and expr_mentions(a[2][0], lambda x: x[0] == "field" and x[2] == "end") and \
+                    expr_mentions(a[2][1], lambda x: x[0] == "param" and x[1] == 2) and expr_mentions(a[2][1], lambda x: x[0] == "call" and x[1].split("::")[-1] == "len")
+            else:
+                ok = ok and a[0] == "call" and a[1].split("::")[-1] == "add" and \
+                    expr_mentions(a[2][1], lambda x: x[0] == "call" and x[1].split("::")[-1] == "len") and not mentions_param(a[2][1], 2)
+            # order: fallible reserve < zeroing < length store
+            res = b.calls_to(lambda f: f.get("name") == "generic_reserve")
+            sl = b.calls_to(lambda f: f.get("name") == "set_len")
+            ok = ok and bool(res) and bool(sl) and b.dominates(res[0][0], site) and b.dominates(site, sl[0][0])
+            ctx.inst(R, b.path, ok, f"extend_zeroed: reserve, then write_bytes({show(pe)}, 0, {show(ce)}), then set_len" if ok else
+                     f"extend_zeroed zeroes {show(ce)} elements at {show(pe)} / wrong order: the new tail is not exactly the zeroed range",
+                     where=b.where(site), site="extend_zeroed")
+    if n:
+        ctx.floor(R, "zeroing sites of the bytemuck/zerocopy extensions", n, 6)
+
+
 def run(ctx, progs):
     ctx.assume("rustc nightly's type checker, MIR construction and trait resolution are correct")
     ctx.assume("the fact exporter (driver/src/main.rs) and the PROV reconstruction faithfully render MIR")
@@ -380,5 +424,6 @@ def run(ctx, progs):
         r1_copy_length(ctx, P)
         r2_overlap(ctx, P)
         r3_zeroing(ctx, P)
+        r3b_zeroed_extensions(ctx, P)
         r4_no_foreign_writes(ctx, P)
     ctx.config = None
